@@ -265,7 +265,62 @@ fn check_c(table: &Table, cfg: &FlagCfg, masks: &[u8], vals: &[i32], with_switch
     }
 }
 
-enum Work { A(usize), B(BCase), C { cfg_idx: usize, masks: Vec<u8>, vals: Vec<i32>, sw: bool } }
+enum Work { A(usize), B(BCase), C { cfg_idx: usize, masks: Vec<u8>, vals: Vec<i32>, sw: bool }, D(DCase) }
+
+// ---------------------------------------------------------------------------------------------
+// (d) switches in assignments, with cases that are not plain values (`A = (10 : : B + 12 : 13);`).  These do not
+// expand into copies of one instruction but into one assignment per explicit case, each under the part of the label
+// that its case spans.  Oracle: for every difficulty the switch has a position for, M1 runs the emitted
+// instructions on that difficulty; if the label permits it, A ends as that difficulty's case value, otherwise A is
+// untouched.
+
+/// case: None = omitted, Some((v, false)) = literal v, Some((v, true)) = `B + v`
+struct DCase { body: String, n: usize, cases: Vec<Option<(i32, bool)>>, label: &'static str, cfg_idx: usize, compound: bool }
+
+fn check_d(table: &Table, cfg: &FlagCfg, c: &DCase) -> (String, Vec<Failure>, u64) {
+    let mapfile = format!("{}{}", table.mapfile_text(REGS), cfg.mapfile_section());
+    let detail = |extra: serde_json::Value| json!({"family": "d", "body": c.body, "scheme": cfg.scheme, "default_on": cfg.default_on, "label": c.label, "info": extra});
+    let hooks = make_language(&Pool { ints: 4, floats: 4 }, false);
+    let r = catch(|| with_truth(&mapfile, |truth| {
+        let block = front_end(truth, &c.body, true).map_err(|(s, d)| format!("{s}: {d}"))?;
+        tl::validate_difficulty(truth, &hooks, &block)?;
+        let des = desugar(truth, &block)?;
+        let (instrs, _) = tl::lower(truth, &hooks, &des.0, false)?;
+        Ok::<_, String>(instrs)
+    }));
+    let instrs = match r {
+        Err(p) => return ("panic".into(), vec![Failure { signature: format!("C14:{}", p.signature()), detail: detail(json!({"panic": p.text})) }], 0),
+        Ok(Err(e)) => return ("rejected".into(), vec![Failure { signature: format!("C14:assign-switch-rejected:n{}:{}", c.n, e.lines().next().unwrap_or("").chars().filter(|ch| !ch.is_ascii_digit()).take(60).collect::<String>()), detail: detail(json!({"diag": e})) }], 0),
+        Ok(Ok(i)) => i,
+    };
+    let label_mask = m8_parse_label(c.label, cfg).unwrap();
+    let aux = cfg.default_on;
+    let (a0, b0) = (-777, 1000);
+    let mut val: Valuation = Valuation::new();
+    for r in REGS { val.insert(r.id, if r.float { Val::F(0.0) } else { Val::I(0) }); }
+    val.insert(R_A, Val::I(a0)); val.insert(R_B, Val::I(b0));
+    let mut problems = vec![]; let mut comparisons = 0;
+    for d in 0..c.n {
+        if (aux >> d) & 1 == 1 { continue; }
+        let permitted = (label_mask >> d) & 1 == 1;
+        let (v, plus_b) = (0..=d).rev().find_map(|i| c.cases[i]).expect("first case present");
+        let selected = if plus_b { b0 + v } else { v };
+        let want = if !permitted { a0 } else if c.compound { a0 + selected } else { selected };
+        comparisons += 1;
+        match tl::run_m1(table, &instrs, &val, d as u32, 4) {
+            Err(e) => { problems.push(format!("difficulty {d}: M1 cannot run the output: {e}")); break; },
+            Ok(t) => {
+                let got = t.regs.get(&R_A).map(|v| v.as_int());
+                if got != Some(want) { problems.push(format!("difficulty {d} ({}): A ends as {:?}, expected {want}", if permitted { "permitted by the label" } else { "not permitted by the label" }, got)); }
+            },
+        }
+    }
+    for i in &instrs { comparisons += 1; if i.difficulty & aux != label_mask & aux { problems.push(format!("aux bits {:#x} differ from the label's {:#x}", i.difficulty & aux, label_mask & aux)); break; } }
+    if problems.is_empty() { ("ok".into(), vec![], comparisons) } else {
+        let holes = c.cases.iter().any(|x| x.is_none());
+        ("mismatch".into(), vec![Failure { signature: format!("C14:assign-switch:n{}:{}:{}", c.n, if holes { "holes" } else { "dense" }, if aux != 0 { "aux" } else { "noaux" }), detail: detail(json!({"problems": problems, "instrs": fmt_instrs(&instrs)})) }], comparisons)
+    }
+}
 
 pub fn run(tier: &str) -> Report {
     let mut rep = Report::new("C14", tier, "model_checking");
@@ -325,6 +380,25 @@ pub fn run(tier: &str) -> Report {
                     }
                 }
             }
+            // (d) assignment switches: every hole pattern x which explicit case is compound (each one in turn, and all) x labels
+            if n <= if extra { 6 } else { 4 } {
+                for holes in 0..(1u32 << (n - 1)) {
+                    let explicit: Vec<usize> = (0..n).filter(|&i| i == 0 || (holes >> (i - 1)) & 1 == 0).collect();
+                    let mut shapes: Vec<Vec<usize>> = explicit.iter().map(|&i| vec![i]).collect();
+                    if explicit.len() > 1 { shapes.push(explicit.clone()); }
+                    for nonsimple in shapes {
+                        let cases: Vec<Option<(i32, bool)>> = (0..n).map(|i| if explicit.contains(&i) { Some((10 + i as i32, nonsimple.contains(&i))) } else { None }).collect();
+                        let txt = cases.iter().map(|x| match x { None => String::new(), Some((v, false)) => v.to_string(), Some((v, true)) => format!("B + {v}") }).collect::<Vec<_>>().join(" : ");
+                        for lab in labels.iter() {
+                            for compound in [false, true] {
+                                if compound && !extra && nonsimple.len() > 1 { continue; }
+                                let body = format!("{{ {{\"{lab}\"}}: A {} ({txt}); }}", if compound { "+=" } else { "=" });
+                                work.push(Work::D(DCase { body, n, cases: cases.clone(), label: lab, cfg_idx: ci, compound }));
+                            }
+                        }
+                    }
+                }
+            }
             // mismatched lengths must be an error
             let body = format!("{{ mSS(({}), (1:2:3:4:5:6:7:8:9)); }}", (0..n).map(|i| i.to_string()).collect::<Vec<_>>().join(":"));
             work.push(Work::B(BCase { body, n, cases: vec![], label: "*", cfg_idx: ci, mismatched: true }));
@@ -358,6 +432,7 @@ pub fn run(tier: &str) -> Report {
         Work::A(i) => { let o = check_a(&table, &cfgs[*i]); (format!("a:{}", o.class), o.failures, o.comparisons) },
         Work::B(c) => { let (cl, f, n) = check_b(&table, &cfgs[c.cfg_idx], c); (format!("b:{cl}"), f, n) },
         Work::C { cfg_idx, masks, vals, sw } => { let (cl, f) = check_c(&table, &cfgs[*cfg_idx], masks, vals, *sw); (format!("c:{cl}"), f, 1) },
+        Work::D(c) => { let (cl, f, n) = check_d(&table, &cfgs[c.cfg_idx], c); (format!("d:{cl}"), f, n) },
     });
     let mut seen_sigs = BTreeSet::new();
     for (i, r) in results.into_iter().enumerate() {
@@ -368,11 +443,12 @@ pub fn run(tier: &str) -> Report {
             Work::A(ci) => { if cfgs[*ci].default_on != 0 || cfgs[*ci].scheme != "digits" { rep.nontrivial += 1; } if i % 97 == 0 { rep.sample(json!({"family": "a", "scheme": cfgs[*ci].scheme, "default_on": cfgs[*ci].default_on})); } },
             Work::B(c) => { if c.cases.iter().any(|s| s.iter().any(|x| x.is_none())) || c.label != "*" { rep.nontrivial += 1; } if i % 4001 == 0 { rep.sample(json!({"family": "b", "body": c.body, "default_on": cfgs[c.cfg_idx].default_on})); } },
             Work::C { masks, .. } => { rep.nontrivial += 1; if i % 9001 == 0 { rep.sample(json!({"family": "c", "masks": masks})); } },
+            Work::D(c) => { if c.cases.iter().any(|x| x.is_none()) || c.label != "*" { rep.nontrivial += 1; } if i % 4001 == 0 { rep.sample(json!({"family": "d", "body": c.body, "default_on": cfgs[c.cfg_idx].default_on})); } },
         }
         for f in failures { if seen_sigs.insert(f.signature.clone()) || rep.failures.len() < 200 { rep.failures.push(f); } }
     }
     rep.exhaustive = true;
-    rep.bound_completed = format!("(a) all 256 masks x {} flag configurations ({} schemes x default-on subsets{}); (b) {} switch statements: lengths 2-8, every hole pattern{}, 12 labels, {} default-on sets, 1-2 switches per statement{}, nested labelled blocks (12 outer x 9 inner labels, 1-3 levels), mismatched lengths; (c) {} runs of 2..{} instructions over {} masks x same/different values x recognition on/off", n_a, 8, if thorough { ": all 256 for every scheme" } else { ": all 256 for the ENHL scheme, 12 elsewhere" }, n_b, if thorough { "" } else { " (quick: a subset for n>5)" }, b_cfg_idx.len(), if extra { " (second switch with every independent hole pattern for n<=5 under 2 restricting labels)" } else { "" }, n_c, max_run, mask_set.len());
+    rep.bound_completed = format!("(a) all 256 masks x {} flag configurations ({} schemes x default-on subsets{}); (b) {} switch statements: lengths 2-8, every hole pattern{}, 12 labels, {} default-on sets, 1-2 switches per statement{}, nested labelled blocks (12 outer x 9 inner labels, 1-3 levels), mismatched lengths; (c) {} runs of 2..{} instructions over {} masks x same/different values x recognition on/off; (d) assignment switches `A = (..)` / `A += (..)` of length 2-4 [thorough: 2-6], every hole pattern x each explicit case in turn (and all) written `B + k` x 12 labels x the (b) flag sets, run by M1 on every difficulty", n_a, 8, if thorough { ": all 256 for every scheme" } else { ": all 256 for the ENHL scheme, 12 elsewhere" }, n_b, if thorough { "" } else { " (quick: a subset for n>5)" }, b_cfg_idx.len(), if extra { " (second switch with every independent hole pattern for n<=5 under 2 restricting labels)" } else { "" }, n_c, max_run, mask_set.len());
     rep.rule = "full products as listed; non-trivial = the flag set has a default-on or renamed bit (a), the switch has a hole or the label masks out a case (b), every run (c)".into();
     rep.assumptions = vec!["M8 (harness model of the label grammar: defaults, '-'/'+', '*', names) and of per-difficulty case selection".into(), "flag definitions that give one name to two bits can only be satisfied by rejection".into()];
     rep.explanation = "(a) hand-built instructions with every mask are raised to text, each printed label is parsed by M8 and the text is recompiled; (b) switch statements are lowered and, for each difficulty, exactly one emitted copy must apply with that difficulty's values and the label's aux bits; (c) hand-built instruction runs are raised with recognition on/off and recompiled to identical instructions".into();
